@@ -231,7 +231,8 @@ class CCodeGenerator:
 
     def gen_global_initialize_array(self, typ, ival):
         """Properly fill an array with initial values"""
-        assert isinstance(ival, expressions.ArrayInitializer)
+        if not isinstance(ival, expressions.ArrayInitializer):
+            self.error("Initializer is not a constant", ival.location)
         assert ival.typ is typ
 
         element_size = self.sizeof(typ.element_type)
@@ -258,7 +259,8 @@ class CCodeGenerator:
 
     def gen_global_initialize_union(self, typ, ival):
         """Initialize a union type"""
-        assert isinstance(ival, expressions.UnionInitializer)
+        if not isinstance(ival, expressions.UnionInitializer):
+            self.error("Initializer is not a constant", ival.location)
         assert ival.typ is typ
         mem = ()
         # Initialize the first field!
@@ -272,7 +274,8 @@ class CCodeGenerator:
 
     def gen_global_initialize_struct(self, typ, ival):
         """Properly fill global struct variable with content"""
-        assert isinstance(ival, expressions.StructInitializer)
+        if not isinstance(ival, expressions.StructInitializer):
+            self.error("Initializer is not a constant", ival.location)
         assert ival.typ is typ
         mem = ()
         bits = []  # A working list of bytes
